@@ -442,16 +442,16 @@ def real_validation(ctx, rep, cases, recs):
     import shutil
     import subprocess
     import tempfile
+    from concurrent.futures import ThreadPoolExecutor
     from .. import loader
-    from ..pool import PYTHON
-    n = int(300 * ctx.scale)
-    step = max(1, len(cases) // n)
-    checked = 0
-    for ci in range(0, len(cases), step):
+    from ..pool import HarnessError, PYTHON
+    n = int(600 * ctx.scale)
+    eligible = [ci for ci, c in enumerate(cases) if c[2] not in ("read_error", "write_error") and c[3] != "crash_at_line_event"]
+    step = max(1, len(eligible) // max(1, n))
+    picks = eligible[::step][:n]
+
+    def one(ci):
         bi, mode, kind, detail, pos, where, spec, expect = cases[ci]
-        if kind in ("read_error", "write_error") or detail == "crash_at_line_event":
-            continue
-        rec = recs[ci]
         scratch = tempfile.mkdtemp(prefix="j2m-c17-", dir="/dev/shm" if os.path.isdir("/dev/shm") else None)
         try:
             for rel, f in spec["files"].items():
@@ -475,22 +475,26 @@ def real_validation(ctx, rep, cases, recs):
             env = dict(os.environ, PYTHONPATH=loader.repo_dir() + os.pathsep + scratch, PYTHONIOENCODING="utf-8")
             env.pop("TRAVIS", None)
             env.pop("FORCE_COVERAGE", None)
-            p = subprocess.run([PYTHON, "-m", "json_to_models", *argv], capture_output=True, env=env, timeout=120, cwd=scratch)
+            p = subprocess.run([PYTHON, "-m", "json_to_models", *argv], capture_output=True, env=env, timeout=180, cwd=scratch)
             real = {"status": p.returncode, "stdout": p.stdout.decode("utf-8", "replace"),
                     "out_b64": (b64(open(out_path, "rb").read()) if out_path and os.path.isfile(out_path) else None)}
-            checked += 1
-            bad = judge_fail(real, mode)
-            if bad:
-                rep.violation(f"real:{kind}:{detail}:{bad[0]}", {"spec": spec, "mode": mode, "argv": argv, "status": p.returncode,
-                                                               "stderr": p.stderr.decode("utf-8", "replace")[-800:], "clause": bad},
-                              f"real CLI process, fault {kind}/{detail}, mode {mode}: {bad}")
-                break
-            if (real["status"] == 0) != (rec["status"] == 0):
-                from ..pool import HarnessError
-                raise HarnessError(f"in-process status emulation disagrees with the real process for {kind}/{detail}")
+            return ci, argv, real, p.stderr.decode("utf-8", "replace")[-800:]
         finally:
             shutil.rmtree(scratch, ignore_errors=True)
-    return checked
+
+    with ThreadPoolExecutor(max_workers=max(2, ctx.jobs)) as ex:
+        results = list(ex.map(one, picks))
+    for ci, argv, real, stderr in results:
+        bi, mode, kind, detail, pos, where, spec, expect = cases[ci]
+        bad = judge_fail(real, mode)
+        if bad:
+            rep.violation(f"real:{kind}:{detail}:{bad[0]}", {"spec": spec, "mode": mode, "argv": argv, "status": real["status"],
+                                                           "stderr": stderr, "clause": bad},
+                          f"real CLI process, fault {kind}/{detail}, mode {mode}: {bad}")
+            break
+        if (real["status"] == 0) != (recs[ci]["status"] == 0):
+            raise HarnessError(f"in-process status emulation disagrees with the real process for {kind}/{detail}")
+    return len(results)
 
 
 def replay(ctx, payload):
